@@ -75,7 +75,7 @@ var clauseWords = map[string]bool{
 	"requires": true, "ensures": true, "panics": true, "may_panic": true, "modifies": true, "assigns": true,
 	"loop": true, "ghost": true, "at": true, "trusted": true, "inline": true, "pure": true, "props": true,
 	"spec": true, "axiom": true, "event": true, "env": true, "assume": true, "decreases": true, "global": true,
-	"havoc": true, "nopanic": true, "fresh": true,
+	"havoc": true, "nopanic": true, "fresh": true, "captures": true, "var": true, "import": true, "let": true,
 }
 
 var labelRe = regexp.MustCompile(`^\[([A-Za-z0-9_.<>=+\-/ ]+)\]\s*`)
@@ -209,7 +209,26 @@ func ParseContractText(path, pkgPath, src string) (*ContractFile, error) {
 		case "trusted", "inline", "pure", "nopanic", "fresh":
 			cur.Flags[word] = true
 			continue
-		case "requires", "ensures", "may_panic", "assume", "env", "decreases":
+		case "var":
+			// var a, b real
+			f := strings.Fields(strings.ReplaceAll(rest, ",", " "))
+			if len(f) < 2 {
+				return nil, errf("var needs names and a type")
+			}
+			cl.Kind = "var"
+			cl.Text = rest
+			cl.AtName = f[len(f)-1]
+			cl.GhostName = strings.Join(f[:len(f)-1], " ")
+		case "import":
+			// import requires|ensures|captures KEY
+			f := strings.Fields(rest)
+			if len(f) < 2 {
+				return nil, errf("import needs a clause kind and a block key")
+			}
+			cl.Kind = "import"
+			cl.AtKind = f[0]
+			cl.AtName = normKey(strings.Join(f[1:], " "))
+		case "requires", "ensures", "may_panic", "assume", "env", "decreases", "captures":
 			cl.Kind = word
 			cl.Label, cl.Expr, err = parseLabeled(rest)
 		case "panics":
@@ -251,12 +270,12 @@ func ParseContractText(path, pkgPath, src string) (*ContractFile, error) {
 			}
 			body := strings.TrimSpace(strings.TrimPrefix(strings.TrimSpace(strings.TrimPrefix(rest, f[0])), f[1]))
 			cl.Label, cl.Expr, err = parseLabeled(body)
-		case "ghost":
+		case "ghost", "let":
 			i := strings.Index(rest, "=")
 			if i < 0 {
 				return nil, errf("ghost needs name = expr")
 			}
-			cl.Kind = "ghost"
+			cl.Kind = word
 			cl.GhostName = strings.TrimSpace(rest[:i])
 			cl.Expr, err = parser.ParseExpr(rest[i+1:])
 		case "at":
